@@ -98,19 +98,21 @@ theorem repP_encAll {f : Val → M Val} {d : Val} {enc : Val → HChan → Excep
         rw [← he.1, ← he.2, List.length_cons, repP_succ]
         exact DecOK.bind (h0.weaken hm) (DecOK.bind ih (DecOK.pure _) (by simp)) rfl
 
-/-- a value read through a `BoundedReader` of `sz ≥ its length` bytes, then `ReadPadding` -/
-theorem DecOK.framed {α β} {ps : List (Int × Int)} {m : M α} {a : α} {vb : Bytes} {sz : Nat} (g : α → β)
-    (h : DecOK m a vb ps) (hsz : vb.length ≤ sz) :
+/-- a value read through a `BoundedReader` of `sz ≥ its length` bytes, then `ReadPadding` over
+whatever bytes fill the rest of the frame -/
+theorem DecOK.framedPad {α β} {ps : List (Int × Int)} {m : M α} {a : α} {vb : Bytes} {sz : Nat} (g : α → β)
+    (h : DecOK m a vb ps) (pad : Bytes) (hpadl : vb.length + pad.length = sz) :
     DecOK (rPush sz >>= fun _ => m >>= fun x => rPadPop >>= fun _ => Pure.pure (g x)) (g a)
-      (vb ++ List.replicate (sz - vb.length) 0) ps := by
+      (vb ++ pad) ps := by
+  have hsz : vb.length ≤ sz := by omega
   intro s rest hc hb hf hr
-  have hlen : (vb ++ List.replicate (sz - vb.length) (0 : UInt8)).length = sz := by
+  have hlen : (vb ++ pad).length = sz := by
     simp; omega
   rw [hlen] at hf ⊢
   have hpush : rPush sz s = (.ok (), { s with frames := sz :: s.frames }) := rfl
   rw [bind_ok hpush]
   have hb1 : ({ s with frames := sz :: s.frames } : Src).bytes
-      = vb ++ (List.replicate (sz - vb.length) 0 ++ rest) := by
+      = vb ++ (pad ++ rest) := by
     simp [hb]
   have hf1 : framesOk vb.length ({ s with frames := sz :: s.frames } : Src).frames = true := by
     rw [framesOk_iff]
@@ -128,7 +130,7 @@ theorem DecOK.framed {α β} {ps : List (Int × Int)} {m : M α} {a : α} {vb : 
     have hskip := rSkip_ok (s := { (({ s with frames := sz :: s.frames } : Src).adv vb.length) with
         frames := s.frames.map (· - vb.length) }) (n := sz - vb.length)
       (by simpa using hc)
-      (by simp [hb])
+      (by simp [hb]; omega)
       (by
         apply framesOk_adv (a := vb.length)
         have : vb.length + (sz - vb.length) = sz := by omega
@@ -145,5 +147,12 @@ theorem DecOK.framed {α β} {ps : List (Int × Int)} {m : M α} {a : α} {vb : 
         omega
   rw [bind_ok hpad]
   simp
+
+/-- ... when the frame was filled by `WritePadding` (zero bytes) -/
+theorem DecOK.framed {α β} {ps : List (Int × Int)} {m : M α} {a : α} {vb : Bytes} {sz : Nat} (g : α → β)
+    (h : DecOK m a vb ps) (hsz : vb.length ≤ sz) :
+    DecOK (rPush sz >>= fun _ => m >>= fun x => rPadPop >>= fun _ => Pure.pure (g x)) (g a)
+      (vb ++ List.replicate (sz - vb.length) 0) ps :=
+  DecOK.framedPad g h _ (by simp; omega)
 
 end Nop
